@@ -194,6 +194,10 @@ type exec struct {
 	allocErr error
 	selfCloseSeen bool
 	extra    map[string]*net.UDPAddr
+	// old is the first relayed socket after the application has closed it and allocated again on the same client;
+	// oldAgain: it has been closed a second time since (a deferred Close, or the library's own late clean-up)
+	old      net.PacketConn
+	oldAgain bool
 	light    bool // long runs: no per-step trace/state bookkeeping
 }
 
@@ -480,7 +484,7 @@ func (x *exec) key(now time.Time) string {
 			sb.WriteByte('x')
 		}
 	}
-	fmt.Fprintf(&sb, "|s438=%d", len(x.m.consec438))
+	fmt.Fprintf(&sb, "|s438=%d|re=%v,%v", len(x.m.consec438), x.old != nil, x.oldAgain)
 
 	return sb.String()
 }
@@ -933,6 +937,46 @@ func (x *exec) apply(ev string) { //nolint:gocognit,cyclop
 		x.mu.Unlock()
 		if !d {
 			x.fail("close:close-blocked", "Close did not return")
+		}
+	case "realloc":
+		// the application allocates again on the same client: a new relayed socket, nothing carried over
+		ctx = "after-close"
+		x.old = x.conn
+		done := false
+		go func() {
+			x.conn, x.allocErr = x.cl.Allocate()
+			x.mu.Lock()
+			done = true
+			x.mu.Unlock()
+		}()
+		synctest.Wait()
+		x.mu.Lock()
+		d := done
+		x.mu.Unlock()
+		if !d || x.allocErr != nil {
+			x.fail("realloc:second-allocate-failed", "returned=%v err=%v", d, x.allocErr)
+
+			return
+		}
+		x.m = &model{granted: map[string]bool{}, bind: map[string]*mbind{}, owner: map[uint16]string{}, nonce: "nonce-0", consec438: map[string]int{}}
+		x.writes, x.writers, x.reader, x.out = map[string]*wcall{}, nil, nil, nil
+	case "close-old":
+		// closing a socket that is already closed changes nothing - in particular nothing about the client's new socket
+		ctx = "already-closed"
+		done := false
+		go func() {
+			_ = x.old.Close()
+			x.mu.Lock()
+			done = true
+			x.mu.Unlock()
+		}()
+		x.oldAgain = true
+		synctest.Wait()
+		x.mu.Lock()
+		d := done
+		x.mu.Unlock()
+		if !d {
+			x.fail("close:second-close-of-the-old-socket-blocked", "Close did not return")
 		}
 	case "r":
 		pend := x.pending()
